@@ -197,6 +197,28 @@ def show(x):
     return str(x)
 
 
+WHERE_TEXT = {'none': None, 'date>=D1': f'date >= {L.DATES[1]}', 'number>0': 'number > 0', 'number>1000000': 'number > 1000000',
+              'cost_number>21': 'cost_number > 21', "account~'Inv|Cash'": "account ~ 'Inv|Cash'", "currency='USD'": "currency = 'USD'",
+              "cost_number>21 OR currency='EUR'": "cost_number > 21 OR currency = 'EUR'"}
+FROM_TEXT = {'none': None, "has_account('Inv')": "has_account('Inv')", 'date<D2': f'date < {L.DATES[2]}'}
+TOK_TEXT = {'P': 'position', 'A': 'account', 'B': 'balance', 'UB': 'units(balance)', 'CB': 'cost(balance)',
+            'INB': 'account IN (SELECT account FROM postings WHERE empty(balance))',
+            'INP': 'account IN (SELECT account FROM postings WHERE number > 0)'}
+GROUP_TEXT = {'none': None, 'account': 'account', 'currency': 'currency', 'month': 'year, month', 'root': 'root(account, 1)'}
+
+
+def bql(targets, wname='none', fname='none', gname='none', where_text=None):
+    t = f'SELECT {targets}'
+    if FROM_TEXT[fname]:
+        t += f' FROM {FROM_TEXT[fname]}'
+    w = where_text if where_text is not None else WHERE_TEXT[wname]
+    if w:
+        t += f' WHERE {w}'
+    if GROUP_TEXT[gname]:
+        t += f' GROUP BY {GROUP_TEXT[gname]}'
+    return '`' + t + '`'
+
+
 def inv_key(x):
     return zlib.crc32(str(x).encode())
 
@@ -235,7 +257,7 @@ def check_agg(led, wname, fname, gname, fdates, stats, totals=None):
         t, p = led.rows[i]
         pre.add_position(p)
         groups.setdefault(keyf(t, p), []).append((t, p, copy.copy(pre)))
-    desc = f"WHERE {wname} FROM {fname} GROUP BY {gname}"
+    desc = bql((GROUP_TEXT[gname] + ', ' if GROUP_TEXT[gname] else '') + '<sums>, <f(sum(position)), sum(f(position))>...', wname, fname, gname)
     gotmap = {}
     for r in got:
         k = tuple(r[:nk])
@@ -306,7 +328,7 @@ def check_sub(led, wname, fname, gname, stats):
     inner = select(targets, from_=FROM[fname][0](), where=WHERE[wname][0](), group_by=gb)
     stmt = select([(F('sum', col('s')), 'ts'), (F('sum', col('w')), 'tw'), (F('sum', F('units', col('s'))), 'tu')], from_=inner)
     sel = led.selected(wname, fname)
-    desc = f"sum of sums, WHERE {wname} FROM {fname} GROUP BY {gname}"
+    desc = 'SELECT sum(s), sum(w), sum(units(s)) FROM (' + bql(GROUP_TEXT[gname] + ', sum(position) AS s, sum(weight) AS w', wname, fname, gname).strip('`') + ')'
     try:
         got = led.conn.execute(stmt).fetchall()
     except Exception as e:
@@ -392,7 +414,7 @@ def check_bal(led, wname, fname, pname, stats, total=None):
     toks = PATTERNS[pname]
     stmt = bal_statement(wname, fname, pname)
     sel = led.selected(wname, fname)
-    desc = f"SELECT {', '.join(toks)} WHERE {wname} FROM {fname}"
+    desc = bql(', '.join(TOK_TEXT[t] for t in toks), wname, fname)
     fp = pattern_fp(pname)
     try:
         got = led.conn.execute(stmt).fetchall()
@@ -483,7 +505,7 @@ BPATTERNS = {'refs0': ['P'], 'refs1': ['P', 'B'], 'refs2': ['B', 'P', 'B']}
 def check_balw(led, cname, pname, stats):
     toks = BPATTERNS[pname]
     stmt = select([(TOK[tok](), f'c{i}') for i, tok in enumerate(toks)], where=BCOND[cname][0]())
-    desc = f"SELECT {', '.join(toks)} WHERE {cname}"
+    desc = bql(', '.join(TOK_TEXT[t] for t in toks), where_text=cname)
     try:
         got = led.conn.execute(stmt).fetchall()
     except Exception as e:
